@@ -970,7 +970,13 @@ func (g *gen) parserSection() {
 			g.f("action-reads-typed-terminal")
 		case k == 5 && code:
 			s := g.seq(c, nil, 1+r.Intn(2))
-			alt = fmt.Sprintf("%s %s { usePos(${first().offset}, ${last().endoffset}, ${left().offset}) }", kw, s.text)
+			if g.p(2) {
+				// a qualified name: the generator turns "strconv".Itoa into an import
+				alt = fmt.Sprintf("%s %s { usePos(len(\"strconv\".Itoa(${first().offset})), ${last().endoffset}) }", kw, s.text)
+				g.f("action-with-qualified-import")
+			} else {
+				alt = fmt.Sprintf("%s %s { usePos(${first().offset}, ${last().endoffset}, ${left().offset}) }", kw, s.text)
+			}
 			g.tmplOnce("onAfterParser", "func usePos(a ...int) {}")
 			g.f("action-offsets")
 		default:
@@ -984,6 +990,36 @@ func (g *gen) parserSection() {
 		}
 		alts = append(alts, alt)
 	}
+	// one state marker at several positions whose continuations partly coincide: the marker
+	// covers several LR states, some of which minimizeDFA can merge while others stay apart
+	if g.p(2) {
+		kw := g.termNotIn(itemFirst)
+		itemFirst[kw] = true
+		name := g.n.ident(0)
+		g.markers++
+		mk := fmt.Sprintf("mk%d", g.markers)
+		conts := []string{g.termNotIn(nil)}
+		conts = append(conts, g.termNotIn(set1(conts[0])))
+		if g.p(2) {
+			conts = append(conts, g.termNotIn(set1(conts[0]), set1(conts[1])))
+		}
+		n := 3 + r.Intn(4)
+		first := map[string]bool{}
+		var ma []string
+		for i := 0; i < n; i++ {
+			t := g.termNotIn(first)
+			first[t] = true
+			ma = append(ma, fmt.Sprintf("%s .%s %s", t, mk, conts[r.Intn(len(conts))]))
+		}
+		def("%s :\n    %s\n;", name, strings.Join(ma, "\n  | "))
+		alt := kw + " " + name
+		if itemCat != "" || g.p(3) {
+			alt += " -> " + g.newType()
+		}
+		alts = append(alts, alt)
+		g.f("state-marker-at-several-positions")
+	}
+
 	// a rule that refers to both X and Xopt before an action that uses $X
 	if code && g.p(2) {
 		var cand []*nonterm
